@@ -1,7 +1,8 @@
-from . import dialect_rules as dr
+from . import error_rules as er
 META = {}
 def run(rep):
-    dr.rule_data(rep)
-    dr.rule_dialect(rep)
-    dr.rule_shared_table(rep)
-    dr.rule_header(rep)
+    er.rule_messages(rep)
+    er.rule_cap(rep)
+    er.rule_handle_external(rep)
+    er.rule_noast(rep)
+    er.rule_stream(rep)
